@@ -31,6 +31,14 @@ CHECKS = {
          NOTE + " CRM planform tables are concrete data; concrete cosines are the doubles numpy computes.", "DESIGN.md 3/C14"),
  "C18": ("Reduced claim: option off => exactly 0; TotalDrag sum; wave drag zero below the critical Mach number, positive, increasing in Mach and lift, continuous and smooth at onset on every path; viscous drag positive, decreasing in Reynolds number and increasing in t/c for fully turbulent / fully laminar flow; spanwise and chordwise panel-count independence on constant-chord wings - as SMT obligations with log/pow atoms.",
          NOTE + " With transition (0 < k_lam < 1) positivity and Re-monotonicity need monotonicity of x/log10(x)^2.58, outside the instantiated axioms: posed and reported inconclusive.", "DESIGN.md 3/C18"),
+ "C04": ("Half-model expressions == full-model expressions on a mirror-symmetric symbolic configuration: AIC with the mirrored panel folded in, right-hand side and sectional forces of the real VLM pipeline (kernels as canonicalised uninterpreted functions), and the factor-of-two conventions of VLMGeometry, LiftDrag, LiftCoeff2D, ViscousDrag, WaveDrag, MomentCoefficient, Weight, StructuralCG, StructureWeightLoads, each as SMT identities; the off-plane-root configuration is posed against the explicit two-half model.",
+         NOTE + " Equal matrices and right-hand sides imply equal solutions for a nonsingular system (stated algebraic step); the coupled aerostructural fixed point is not decided. Known findings listed: doubled wave-drag coefficient, ghost mesh of an off-plane root.", "DESIGN.md 3/C04"),
+ "C05": ("AIC, right-hand side, SolveMatrix residual (= tangency condition) and panel forces of the real pipeline (CollocationPoints, VortexMesh, GetVectors, EvalVelMtx, ConvertVelocity, RotationalVelocity, VLMGeometry, VLMMtxRHSComp, HorseshoeCirculations, EvalVelocities, PanelForces) equal, entry by entry for all symbolic meshes and flow conditions, an independently written panel/corner Biot-Savart model; the real kernels are proved equal to the textbook Katz-Plotkin segment and semi-infinite formulas, antisymmetric and mirror-covariant as separate solver lemmas.",
+         NOTE + " Inside the pipeline comparison the kernels are uninterpreted functions on both sides; LAPACK's LU accuracy is not modelled. The reference model (about 120 lines in props/c05.py) is trusted.", "DESIGN.md 3/C05"),
+ "C07": ("Mirrored-input executions give mirrored outputs: aerodynamic states of full-span configurations (sideslip, roll/yaw rates, cg mirrored) and left-half vs right-half symmetric models; every geometry transformation on left/right halves and full span; tube and wingbox stresses; structural-weight, fuel, point-mass and thrust loads - SMT identities between two symbolic executions of the real components.",
+         NOTE + " Known findings listed: root-at-last-index assumption of Sweep/Dihedral/Taper/Rotate on right-half meshes, VonMisesWingbox end-node choice. Coupled convergence not decided.", "DESIGN.md 3/C07"),
+ "C08": ("Reduced claim: with groundplane=True the AIC, right-hand side and forces of the real pipeline equal, entry by entry, those of an independently written image system (reflection about the alpha-rotated plane through n*h, image strength -1, for the surface and its symmetry image).",
+         NOTE + " Not decided: convergence to free air as the height grows (a limit). Rejection without symmetry is part of C20.", "DESIGN.md 3/C08"),
 }
 
 
